@@ -1990,14 +1990,21 @@ fn main() {
         })
     };
     let subj_fixed = fixed("F-C03-2");
+    // /repo 3d805f4 (C04-fix-6) narrows F-C03-11: map patterns bind all-or-nothing. The entry stays
+    // `known`; the commit is recorded in its `partial_fix_commits`.
+    let map_atomic = rep.known_entries().iter().any(|e| {
+        e.get("id").and_then(|x| x.as_str()) == Some("F-C03-11")
+            && e.get("partial_fix_commits").and_then(|x| x.as_array()).is_some_and(|a| a.iter().any(|c| c.as_str() == Some("3d805f4")))
+    });
     let cfg_line = format!(
-        "cfg {} {} {} {} {} {}",
+        "cfg {} {} {} {} {} {} {}",
         fixed("F-C03-1") as u8,
         fixed("F-C03-3") as u8,
         fixed("F-C03-4") as u8,
         fixed("F-C03-5") as u8,
         subj_fixed as u8,
-        fixed("F-C03-8") as u8
+        fixed("F-C03-8") as u8,
+        map_atomic as u8
     );
     let core_keys_ok = fixed("F-C03-6");
     assert_eq!(drv.ask(&cfg_line), "ok");
